@@ -345,6 +345,13 @@ def s5_sizers(ctx):
         for s in sp:
             p, lp = s['path'], s['loop']
             asset, w, wsrc = loop_asset_weight(lp)
+            live_bodies = [b for b in s['bodies'] if b['path'].outcome != 'raise']
+            if live_bodies and all(not b['writes'] for b in live_bodies) and p.value is not None and p.value[0] == 'comp' and p.value[1] == 'dict' \
+                    and any(s_[0] == 'accum' or (s_[0] == 'comp' and s_[1] == 'list') for g_ in p.value[3] for s_ in T.subterms(g_[1])):
+                # two passes: the loop only collects (asset, allocation, price, ...) rows, a comprehension over the collected rows builds the target afterwards.
+                # That every iterated asset ends up with a target then depends on the rows collected - not followed by this clause
+                ctx.undecided('C09.S5', '%s assigns a target to every asset it iterates (no break/continue/filter)' % cname, lp.site, 'target built from rows collected first: %s' % fmt(p.value)[:100])
+                continue
             require_fresh_target(ctx, 'C09.S5', s, cname, 'C09.S5|%s|fresh-target' % cname)
             for b in s['bodies']:
                 bp = b['path']
@@ -359,6 +366,10 @@ def s5_sizers(ctx):
                                     (v[0] == 'accum' and v[2] == ('dict', ())))
             ctx.require(ok, 'C09.S5', '%s returns a target for every weighted asset' % cname, fn.site(), fmt(v)[:100] if v else None, key='C09.S5|%s|return' % cname)
             # the container iterated has exactly the keys of the weights given
+            from ..lib import uncopy, self_chain
+            wsrc = uncopy(wsrc)
+            if (wsrc[0] == 'attr' and self_chain(wsrc) is not None) or (wsrc[0] == 'sub' and wsrc[1][0] == 'attr' and self_chain(wsrc[1]) is not None):
+                continue        # the remembered normalisation of a one-slot memo: equal to the computing path (which is judged here) when the memo is sound (C10/C11, C18)
             okk = wsrc == V('weights') or (wsrc[0] == 'comp' and wsrc[1] == 'dict' and len(wsrc[3]) == 1 and not wsrc[3][0][2] and
                                           fmt(wsrc[3][0][1]) in ('weights.items()', 'weights', 'weights.keys()') and wsrc[2][1][0] == wsrc[3][0][0][0])
             ctx.require(okk, 'C09.S5', '%s: normalisation keeps exactly the given assets' % cname, lp.site, fmt(wsrc)[:120], key='C09.S5|%s|keys' % cname)
